@@ -81,6 +81,13 @@ func (c *c17Case) run() error {
 
 	var mu sync.Mutex
 	inLog := make([][][4]int, n)
+	// a handler may keep the context it was given (a reply produced later, a goroutine): what it says is looked at
+	// again when everything is over and must still be the same
+	type lateView struct {
+		ctx     context.Context
+		cl, idx int
+	}
+	var late []lateView
 	record := func(ctx context.Context, id string) (cl, e int, echo string, ok bool) {
 		// envelope ids are "c<client>-<number>"
 		parts := strings.Split(strings.TrimPrefix(id, "c"), "-")
@@ -95,6 +102,9 @@ func (c *c17Case) run() error {
 		mu.Lock()
 		if cl >= 0 && cl < n {
 			inLog[cl] = append(inLog[cl], [4]int{in.tok(sid), in.tok(loc.String()), in.tok(rem.String()), e})
+			if len(late) < 400 {
+				late = append(late, lateView{ctx: ctx, cl: cl, idx: len(inLog[cl]) - 1})
+			}
 		}
 		mu.Unlock()
 		return cl, e, sid + "|" + loc.String() + "|" + rem.String(), true
@@ -328,6 +338,18 @@ func (c *c17Case) run() error {
 	// let replies that went to the wrong connection surface, and the handler log settle
 	time.Sleep(5 * time.Millisecond)
 	mu.Lock()
+	for _, lv := range late {
+		sid, _ := lime.ContextSessionID(lv.ctx)
+		loc, _ := lime.ContextSessionLocalNode(lv.ctx)
+		rem, _ := lime.ContextSessionRemoteNode(lv.ctx)
+		now := [3]int{in.tok(sid), in.tok(loc.String()), in.tok(rem.String())}
+		rec := &inLog[lv.cl][lv.idx]
+		if now != [3]int{rec[0], rec[1], rec[2]} {
+			// the context changed under the handler's feet: the record shows what it says now
+			rec[0], rec[1], rec[2] = now[0], now[1], now[2]
+			c.Note = "a handler's context said something else after the handler had returned"
+		}
+	}
 	c.In = make([][][4]int, n)
 	for i := range inLog {
 		c.In[i] = append([][4]int(nil), inLog[i]...)
